@@ -67,7 +67,7 @@ def r1(model, rep):
     rel = model.rel("diagram")
     fn = model.func("diagram", "_diag")
     where = "%s:%d" % (rel, fn.lineno)
-    ok, rows = refcmp.compare(model, sysrules.roles(model), fn, refcmp.spec_function("spec_diag", "_diag"), rep, "R1", "diagram._diag", where, "diagram construction")
+    ok, rows = refcmp.compare(model, sysrules.roles(model), fn, refcmp.spec_function("spec_diag", "_diag"), rep, "R1", "diagram._diag", where, "diagram construction", mod="diagram")
     rep.instance("R1", "diagram._diag every component added exactly once", where, ok, "%d path pairs" % rows)
     rep.instance("R1", "diagram._diag one edge per link, legend only for heat diagrams", where, ok)
     if rows < 20:
@@ -87,7 +87,7 @@ def r2(model, rep):
     # label from the node's own row (exactly when a loss frame is given) -> one node with these attributes
     from .. import refcmp, sysrules
     ok, rows = refcmp.compare(model, sysrules.roles(model), helper, refcmp.spec_function("spec_diag", "add_node"), rep, "R2",
-                              "diagram._diag.add_node", where, "node attributes", free=("sys",))
+                              "diagram._diag.add_node", where, "node attributes", free=("sys",), mod="diagram")
     rep.instance("R2", "diagram._diag.add_node override precedence", where, ok)
     # cluster attribute precedence (default -> group entry) is part of the whole-function comparison of R1
     rep.instance("R2", "diagram._diag cluster override precedence", "%s:%d" % (rel, fn.lineno), not any(f.rule == "R1" and "cluster" in f.message for f in rep.findings))
@@ -100,6 +100,15 @@ def r3(model, rep):
         if mod != "diagram":
             continue
         muts, params, consts = c17.arg_mutations(fn, mod, model)
+        # a helper that fills a dict handed in by its callers is fine when every caller hands in a fresh copy (as in C17-R1)
+        kept = []
+        for line, desc, root in muts:
+            if root in params:
+                plist = [a.arg for a in fn.args.posonlyargs + fn.args.args]
+                if root in plist and c17.fresh_at_all_call_sites(model, fn.name, plist.index(root), None):
+                    continue
+            kept.append((line, desc, root))
+        muts = kept
         ok = not muts
         for line, desc, root in muts:
             rep.violation("R3", "diagram." + qn, "%s:%d" % (model.rel(mod), line), "stores into %s: the caller's configuration / system data or a module default is modified" % desc, "arg mutation " + desc)
@@ -113,7 +122,8 @@ def r3(model, rep):
             b = c17.base_name(x.value)
             if b in ("config", "bd_conf", "attrs", "_DEF_CONF", "_DEF_GRADIENT", "_DEF_NODE_CONF", "_DEF_CLUSTER_CONF"):
                 stores = [y for y in ast.walk(d) if isinstance(y, ast.Assign) and any(isinstance(t, ast.Subscript) and is_name(t.value, tname) for t in y.targets)]
-                if stores or (isinstance(x.value, ast.Name) and x.value.id == "config"):
+                # an alias that is only read (e.g. handed to copy.deepcopy) is harmless; one that is written through is not
+                if stores:
                     ok = False
                     rep.violation("R3", "diagram._diag", "%s:%d" % (model.rel("diagram"), x.lineno), "'%s' aliases %s and is written to / used without a deep copy: settings leak between nodes, clusters or calls" % (tname, ast.unparse(x.value)), "alias written: " + tname)
     rep.instance("R3", "diagram._diag works on deep copies", "%s:%d" % (model.rel("diagram"), d.lineno), ok)
@@ -161,7 +171,7 @@ def r4(model, rep):
     fn = model.func("diagram", "_prep_loss")
     where = "%s:%d" % (rel, fn.lineno)
     ok, rows = refcmp.compare(model, sysrules.roles(model), fn, refcmp.spec_function("spec_diag", "_prep_loss"), rep, "R4",
-                              "diagram._prep_loss", where, "loss preparation")
+                              "diagram._prep_loss", where, "loss preparation", mod="diagram")
     rep.instance("R4", "diagram._prep_loss scale and duration-weighted mean", where, ok, "%d guard rows" % rows)
     # label / colour of a node from its own row, the legend value and the preparation call are part of the reference
     # comparisons of add_node (R2) and _diag (R1)
